@@ -50,6 +50,7 @@ def build_inputs(ctx, case, env):
     genes = [f"g{i}" for i in range(ng)]
     paths, names, rows, label = [], {}, {}, {}
     file_genes = {}
+    rows_in_file = {}
     k = 0
     for fi in range(nfiles):
         p = env.path(f"ref{fi}.h5ad")
@@ -81,12 +82,13 @@ def build_inputs(ctx, case, env):
             file_genes[p] = list(genes)
         for i in range(ncell):
             rows[nm[i]] = dense[i]
+            rows_in_file[nm[i]] = list(dense[i])
             c = ctx.choice(f"label[{fi},{i}]", ncl + 1)
             label[nm[i]] = None if c == ncl else CLUSTERS[c]
         k += ncell
     return {'paths': paths, 'names': names, 'rows': rows, 'label': label,
             'genes': genes, 'clusters': CLUSTERS[:ncl], 'raw': raw,
-            'file_genes': file_genes}
+            'file_genes': file_genes, 'rows_in_file': rows_in_file}
 
 
 def install_readers(inp):
